@@ -42,6 +42,9 @@ pub struct Caps {
 	pub max_depth: usize,
 	pub wall: Duration,
 	pub max_states: usize,
+	/// levels up to this depth are always completed, however long they take: the wall cap only stops deeper
+	/// levels (so that what a run is guaranteed to cover does not depend on how busy the machine is)
+	pub min_depth: usize,
 }
 
 pub struct PathFinding<Op> {
@@ -259,7 +262,7 @@ pub fn explore<M: Model>(m: &M, tag: &str, caps: &Caps) -> Explored<M::Op> {
 		let fr = &frontier;
 		let per_parent: Vec<Vec<Succ<M::Op>>> = par_map(&idxs, nworkers, |_, pi| {
 			let mut succs = vec![];
-			if start.elapsed() > caps.wall {
+			if depth > caps.min_depth && start.elapsed() > caps.wall {
 				deadline_hit.store(true, std::sync::atomic::Ordering::SeqCst);
 				return succs;
 			}
